@@ -22,6 +22,9 @@ def run(ctx):
     ctx.anchor(ctx.fn1('Oomd::Engine::Engine::runOnce'), 'base', 'dropin')
     ctx.anchor(ctx.fn1('Oomd::Engine::Engine::prerun'), 'base', 'dropin')
     P = ctx.prog
+    # 'not inside its post-action pause': how the pause deadline is computed (same rule as C05)
+    from .C05 import pause_value_rule
+    pause_value_rule(ctx)
     # ------------------------------------------------ DetectorGroup::check
     chk = ctx.fn1("Oomd::Engine::DetectorGroup::check")
     ls = loop_over(chk, "detectors_")
